@@ -204,7 +204,11 @@ async fn run_op(dev: &Dev, op: &Op) -> OpOut {
             Ok(()) => write!(line, "ok").unwrap(),
             Err(e) => write!(line, "err {}", sanitize(&format!("{}", e))).unwrap(),
         },
-        Op::N => write!(line, "ok {}", if dev.need_flush_meta() { 1 } else { 0 }).unwrap(),
+        Op::N => {
+            // flag + (dirty l2 slices, dirty refblock slices, dirty l1 blocks, dirty reftable blocks) through the hook
+            let (a, b, c, d) = dev.verif_dirty_counts().await;
+            write!(line, "ok {} dirty={},{},{},{}", if dev.need_flush_meta() { 1 } else { 0 }, a, b, c, d).unwrap()
+        }
         Op::C => match dev.check().await {
             Ok(()) => write!(line, "ok").unwrap(),
             Err(e) => write!(line, "err {}", sanitize(&format!("{}", e))).unwrap(),
